@@ -18,6 +18,13 @@ def decRow (j : Json) : Except String Row := do
 def encRow (r : Row) : Json :=
   Json.arr (r.map fun (k, v) => Json.arr #[(k : Json), match v with | some x => (x : Json) | none => Json.null]).toArray
 
+/-- an invalid filter travels as `[[999, null]]` -/
+def validF (f : KVs) : Bool := !f.any (·.1 == 999)
+
+def encRes : Res → Json
+  | .err => Json.null
+  | .rows rs => Json.arr (rs.map encRow).toArray
+
 def handle : Handler := fun req => do
   let op ← str req "op"
   match op with
@@ -27,6 +34,8 @@ def handle : Handler := fun req => do
     pure <| Json.mkObj [
       ("alone", Json.arr (fs.map fun f => Json.arr ((alone f table).map encRow).toArray).toArray),
       ("batched", Json.arr (fs.map fun f => Json.arr ((dispatched fs table f).map encRow).toArray).toArray),
+      ("callAlone", Json.arr (fs.map fun f => encRes (callAlone validF table f)).toArray),
+      ("callBatched", Json.arr (fs.map fun f => encRes (callBatched validF fs table f)).toArray),
       ("old", Json.arr (fs.map fun f => Json.arr ((dispatchedOld (fun _ => 0) fs table f).map encRow).toArray).toArray)]
   | _ => throw s!"C10: unknown op {op}"
 
